@@ -1,12 +1,14 @@
-(* Obligation C20/poisson_mean_matches_pmf.  Statement as printed by Coq from Inferno.C20.DistProofs; proof by reference.
+(* Obligation C20/poisson_mean_matches_pmf.  Statement as printed by Coq from Inferno.C20.DistPoisson; proof by reference.
    This file contains nothing else, so the statement cannot be weakened quietly. *)
 From Coq Require Import Reals List ZArith Bool.
 From Coquelicot Require Import Coquelicot.
 From Flocq Require Import Core.Raux.
-From Inferno Require Import Base.Num Base.NumR C20.Model C20.Spec C20.DistProofs.
+From Inferno Require Import Base.Num Base.NumR Gen.Distributions C20.Model C20.Spec C20.DistPoisson.
 Import ListNotations.
 Open Scope R_scope.
-Theorem poisson_mean_matches_pmf : forall rate : R,
-  0 < rate -> is_series (fun k : nat => INR k * poisson_pmf RN k rate) (poisson_mean RN rate).
-Proof. exact (@Inferno.C20.DistProofs.poisson_mean_matches_pmf). Qed.
+Theorem poisson_mean_matches_pmf : forall (lg : R -> R) (rate : R),
+  lgamma_spec lg ->
+  0 < rate ->
+  is_series (fun k : nat => INR k * poisson_pmf RN lg (INR k) rate) (poisson_mean RN rate).
+Proof. exact (@Inferno.C20.DistPoisson.poisson_mean_matches_pmf). Qed.
 Print Assumptions poisson_mean_matches_pmf.
